@@ -63,6 +63,7 @@ def run_case(case):
                       "%d candidate keys carry %d different probabilities, e.g. key %r has %s and key %r has %s" % (
                           len(keys), len(ps), probs[ps[0]][0], ps[0], probs[ps[-1]][0], ps[-1])))
     base["summary"]["distinct_probabilities"] = len(probs)
+    viols = [(common.with_family(sg, m), dt) for sg, dt in viols]
     viol = common.pick_violation(PROP, viols)
     if viol:
         base.update(outcome="violation", signature=viol[0], detail=viol[1] + " ; design=" + dast.describe(ast))
